@@ -177,6 +177,17 @@ def run(ctx):
             ctx.violate("R2", f"prepare_unrestricted_aminusb skips the conversion under `{src_of(bad[0])}`, which is not one of the documented nothing-to-do cases {sorted(allowed_atoms)}: orbitals that need converting are written as they are", pa, par.test)
         else:
             ctx.ok("R2", f"identity return guarded by `{src_of(par.test)}`", f"{pa.module.relpath}:{par.lineno}")
+    guarded = set()
+    for r in [n for n in pa.own_nodes() if isinstance(n, ast.Return) and isinstance(n.value, ast.Name) and n.value.id == p0]:
+        par = pm.get(id(r))
+        if isinstance(par, ast.If) and r in par.body:
+            disj = par.test.values if isinstance(par.test, ast.BoolOp) and isinstance(par.test.op, ast.Or) else [par.test]
+            guarded |= {" ".join(src_of(d).split()).replace('"', "'") for d in disj}
+    for atom, why in allowed_atoms.items():
+        if atom in guarded:
+            ctx.ok("R2", f"`{atom}` ({why}) returns the given object itself", pa.where)
+        else:
+            ctx.violate("R2", f"prepare_unrestricted_aminusb does not return the given object itself when `{atom}` ({why}): a needless copy / conversion", pa, pa.node, construct=f"identity return missing for {atom}")
     # format prepare_dump: returns the parameter or a prepare_* result; api passes it on
     for short in prog.format_modules():
         g = prog.format_op(short, "prepare_dump")
